@@ -214,11 +214,13 @@ func (s *SoftwrapScanner) Scan(ctx vxfw.DrawContext) bool {
 		if wordLen > s.width {
 			s.rest = []byte{}
 			// Append characters to token until we reach the end
-			for _, char := range wordChars {
-				if w >= s.width {
-					// Append the rest to rest
-					s.rest = append(s.rest, []byte(char.Grapheme)...)
-					continue
+			for i, char := range wordChars {
+				if w >= s.width || (w > 0 && w+uint16(char.Width) > s.width) {
+					// The line is full. Append the rest to rest
+					for _, char := range wordChars[i:] {
+						s.rest = append(s.rest, []byte(char.Grapheme)...)
+					}
+					break
 				}
 				s.token = append(s.token, []byte(char.Grapheme)...)
 				w += uint16(char.Width)
@@ -227,6 +229,8 @@ func (s *SoftwrapScanner) Scan(ctx vxfw.DrawContext) bool {
 			s.rest = append(s.rest, trSpace...)
 			// Append the rest...
 			s.rest = append(s.rest, rest...)
+			// The state describes the first rune of the old rest
+			s.state = -1
 			return true
 		}
 
